@@ -19,6 +19,7 @@ from vlib.pdbio import Atom
 from props import c07
 
 PROPERTY = "C04"
+REDUCE_KEYS = ["pdb"]
 LEVEL = "exploration"
 RULE = ("structures (corpus segments / balls with threaded mutations, ligands, ions, clashing side chains; the corpus "
         "files themselves) x one of the 24 proper grid rotations (all 24 per structure in the thorough tier) x an "
